@@ -36,6 +36,8 @@ impl CoroutinePool {
     #[inline]
     pub fn get(&self) -> CoroutineImpl {
         self.size.fetch_sub(1, Ordering::AcqRel);
+        #[cfg(may_verif)]
+        may_queue::verif::point(may_queue::verif::site::POOL_GET, 0);
         match self.pool.pop() {
             Some(co) => co,
             None => {
@@ -48,6 +50,8 @@ impl CoroutinePool {
     /// put a raw coroutine into the pool
     #[inline]
     pub fn put(&self, co: CoroutineImpl) {
+        #[cfg(may_verif)]
+        may_queue::verif::point(may_queue::verif::site::POOL_PUT, 0);
         // discard the co if push failed
         let m = self.size.fetch_add(1, Ordering::AcqRel);
         if m >= config().get_pool_capacity() {
